@@ -60,11 +60,42 @@ prevote table has a +2/3 majority for something else at a round in `(r, current 
 def Held (tbl : Nat → VSet) (s : St) (v r : Nat) : Prop :=
   (s.lockedValue = v ∧ r ≤ s.lockedRound) ∨ Released tbl v r s.round
 
+/-- within one list of outputs: a prevote emitted AFTER a precommit for block `v` at round `r` is for `v`, or the table has a
++2/3 majority for something else at a round in `(r, r']` -/
+def D3C (tbl : Nat → VSet) : List Out → Prop
+  | [] => True
+  | o :: rest =>
+    (∀ h r v, o = Out.vote tPrecommit h r v → v ≠ 0 →
+        ∀ h' r' v', Out.vote tPrevote h' r' v' ∈ rest → v' = v ∨ Released tbl v r r') ∧ D3C tbl rest
+
+/-- `D3C` across two lists -/
+def D3X (tbl : Nat → VSet) (l₁ l₂ : List Out) : Prop :=
+  ∀ h r v, Out.vote tPrecommit h r v ∈ l₁ → v ≠ 0 → ∀ h' r' v', Out.vote tPrevote h' r' v' ∈ l₂ → v' = v ∨ Released tbl v r r'
+
+theorem D3C_append {tbl : Nat → VSet} : ∀ {l₁ l₂ : List Out}, D3C tbl l₁ → D3C tbl l₂ → D3X tbl l₁ l₂ → D3C tbl (l₁ ++ l₂)
+  | [], _, _, h2, _ => by simpa using h2
+  | o :: rest, l₂, h1, h2, hx => by
+    simp only [List.cons_append, D3C] at h1 ⊢
+    refine ⟨?_, D3C_append h1.2 h2 (fun h r v hm => hx h r v (List.mem_cons_of_mem _ hm))⟩
+    intro h r v ho hv h' r' v' hm
+    rcases List.mem_append.1 hm with hm | hm
+    · exact h1.1 h r v ho hv h' r' v' hm
+    · exact hx h r v (by rw [ho]; simp) hv h' r' v' hm
+
+theorem D3C_split {tbl : Nat → VSet} : ∀ {pre post : List Out} {o : Out}, D3C tbl (pre ++ o :: post) →
+    ∀ h r v, Out.vote tPrecommit h r v ∈ pre → v ≠ 0 → ∀ h' r' v', o = Out.vote tPrevote h' r' v' → v' = v ∨ Released tbl v r r'
+  | [], _, _, _, _, _, _, hm, _, _, _, _, _ => by cases hm
+  | x :: rest, post, o, hd, h, r, v, hm, hv, h', r', v', ho => by
+    simp only [List.cons_append, D3C] at hd
+    rcases List.mem_cons.1 hm with e | hm'
+    · exact hd.1 h r v e.symm hv h' r' v' (by rw [ho]; simp)
+    · exact D3C_split hd.2 h r v hm' hv h' r' v' ho
+
 /-- the relation every internal transition of the model satisfies (vote tables untouched) -/
 def G (s s' : St) : Prop :=
   W s → W s' ∧ s'.height = s.height ∧ (∀ q, s'.rv q = s.rv q) ∧ mu s ≤ mu s' ∧ LockEv s.pvs s s' ∧ s'.powers = s.powers ∧
     ∃ new, s'.out = s.out ++ new ∧ Chain (mu s) new (mu s') ∧ (∀ o ∈ new, Just s.pvs s.pcs s o) ∧
-      ∀ h r v, Out.vote tPrecommit h r v ∈ new → v ≠ 0 → Held s.pvs s' v r
+      (∀ h r v, Out.vote tPrecommit h r v ∈ new → v ≠ 0 → Held s.pvs s' v r) ∧ D3C s.pvs new
 
 theorem Chain_mono_start {a b : Nat} (hab : a ≤ b) : ∀ {l : List Out} {m : Nat}, Chain b l m → Chain a l m
   | [], _, h => by simp [Chain] at *; omega
@@ -129,7 +160,7 @@ theorem Released_mono {tbl : Nat → VSet} {lv lr lr' R R' : Nat} (h : Released 
 
 theorem G.refl (s : St) : G s s := by
   intro hw
-  refine ⟨hw, rfl, fun _ => rfl, Nat.le_refl _, ?_, rfl, [], by simp, by simp [Chain], by simp, by simp⟩
+  refine ⟨hw, rfl, fun _ => rfl, Nat.le_refl _, ?_, rfl, [], by simp, by simp [Chain], by simp, by simp, by simp [D3C]⟩
   intro h; exact Or.inl ⟨rfl, Nat.le_refl _⟩
 
 theorem pvs_eq_of_rv {a b : St} (h : ∀ q, b.rv q = a.rv q) : b.pvs = a.pvs := by
@@ -140,13 +171,13 @@ theorem pcs_eq_of_rv {a b : St} (h : ∀ q, b.rv q = a.rv q) : b.pcs = a.pcs := 
 
 theorem G.trans {a b c : St} (h1 : G a b) (h2 : G b c) : G a c := by
   intro hwa
-  obtain ⟨hwb, hh1, hrv1, hmu1, hlev1, hp1, new1, hout1, hch1, hj1, hk1⟩ := h1 hwa
-  obtain ⟨hwc, hh2, hrv2, hmu2, hlev2, hp2, new2, hout2, hch2, hj2, hk2⟩ := h2 hwb
+  obtain ⟨hwb, hh1, hrv1, hmu1, hlev1, hp1, new1, hout1, hch1, hj1, hk1, hd1⟩ := h1 hwa
+  obtain ⟨hwc, hh2, hrv2, hmu2, hlev2, hp2, new2, hout2, hch2, hj2, hk2, hd2⟩ := h2 hwb
   have hpv : b.pvs = a.pvs := pvs_eq_of_rv hrv1
   have hpc : b.pcs = a.pcs := pcs_eq_of_rv hrv1
   have hrbc : b.round ≤ c.round := round_le_of_mu hmu2 hwc.1
   refine ⟨hwc, by rw [hh2, hh1], fun q => by rw [hrv2 q, hrv1 q], Nat.le_trans hmu1 hmu2, ?_, by rw [hp2, hp1], new1 ++ new2,
-    by rw [hout2, hout1, List.append_assoc], Chain_append hch1 hch2, ?_, ?_⟩
+    by rw [hout2, hout1, List.append_assoc], Chain_append hch1 hch2, ?_, ?_, ?_⟩
   · -- lock evolution
     intro hlv
     rcases hlev1 hlv with ⟨e1, e2⟩ | hrel
@@ -197,12 +228,28 @@ theorem G.trans {a b c : St} (h1 : G a b) (h2 : G b c) : G a c := by
       · exact Or.inr (Released_mono hrel (Nat.le_refl _) hrbc)
     · have := hk2 h r v hm hv
       rw [hpv] at this; exact this
+  · -- a prevote after a precommit
+    refine D3C_append hd1 (by rw [← hpv]; exact hd2) ?_
+    intro h r v hm hv h' r' v' hm'
+    have hj : _ ∧ _ ∧ _ ∧ _ := hj2 _ hm'
+    obtain ⟨_, j2, _, j4⟩ := hj
+    have hbr : b.round ≤ r' := by
+      have : b.round * 16 ≤ mu b := by unfold mu; omega
+      simp at j2; omega
+    rcases hk1 h r v hm hv with ⟨e1, e2⟩ | hrel
+    · have hlvb : b.lockedValue ≠ 0 := by rw [e1]; exact hv
+      rcases j4 rfl hlvb with e | hrel2
+      · exact Or.inl (by rw [e, e1])
+      · right
+        rw [hpv, e1] at hrel2
+        exact Released_mono hrel2 e2 (Nat.le_refl _)
+    · exact Or.inr (Released_mono hrel (Nat.le_refl _) hbr)
 
 /-! ## the internal transitions satisfy `G` -/
 
 theorem G_die (s : St) : G s (die s) := by
   intro hw
-  refine ⟨hw, rfl, fun _ => rfl, Nat.le_refl _, ?_, rfl, [], by simp [die], by simp [Chain, die, mu], by simp, by simp⟩
+  refine ⟨hw, rfl, fun _ => rfl, Nat.le_refl _, ?_, rfl, [], by simp [die], by simp [Chain, die, mu], by simp, by simp, by simp [D3C]⟩
   intro h; exact Or.inl ⟨rfl, Nat.le_refl _⟩
 
 theorem enterPrevote_G (s : St) (h r : Nat) (hr : r ≤ s.round) : G s (enterPrevote s h r) := by
@@ -230,7 +277,7 @@ theorem enterPrevote_G (s : St) (h r : Nat) (hr : r ≤ s.round) : G s (enterPre
     · exact ⟨_, rfl, fun h => absurd h hl⟩
   obtain ⟨v, hv, hlk⟩ := key
   rw [hv]
-  refine ⟨?_, rfl, fun _ => rfl, ?_, ?_, rfl, [.vote tPrevote s.height s.round v], by simp [emit], ?_, ?_, ?_⟩
+  refine ⟨?_, rfl, fun _ => rfl, ?_, ?_, rfl, [.vote tPrevote s.height s.round v], by simp [emit], ?_, ?_, ?_, by simp [D3C]⟩
   · refine ⟨by simp [emit, sPrevote], fun hl => ?_⟩
     have := hw.2 hl
     simp [emit, mu, sPrevote] at this ⊢; omega
@@ -251,13 +298,21 @@ theorem Chain_plain : ∀ {l : List Out} {a b : Nat}, a ≤ b → (∀ o ∈ l, 
     simp only [Chain, h1]
     exact Chain_plain h (fun o' ho' => hn o' (by simp [ho']))
 
+theorem D3C_plain {tbl : Nat → VSet} : ∀ {new : List Out},
+    (∀ o ∈ new, (∃ h r pol v, o = .proposal h r pol v) ∨ (∃ h r st, o = .timeout h r st)) → D3C tbl new
+  | [], _ => trivial
+  | o :: rest, hn => by
+    refine ⟨?_, D3C_plain (fun o' ho' => hn o' (List.mem_cons_of_mem _ ho'))⟩
+    intro h r v ho
+    rcases hn o (by simp) with ⟨_, _, _, _, e⟩ | ⟨_, _, _, e⟩ <;> rw [e] at ho <;> cases ho
+
 /-- a transition that leaves height, vote tables and lock alone and emits only proposals/timeouts -/
 theorem G_plain {s s' : St} (new : List Out) (hh : s'.height = s.height) (hrv : s'.rvs = s.rvs)
     (hlv : s'.lockedValue = s.lockedValue) (hlr : s'.lockedRound = s.lockedRound) (hmu : mu s ≤ mu s') (hst : s'.step ≤ 9)
     (hpow : s'.powers = s.powers) (hout : s'.out = s.out ++ new) (hnew : ∀ o ∈ new, (∃ h r pol v, o = .proposal h r pol v) ∨ (∃ h r st, o = .timeout h r st)) :
     G s s' := by
   intro hw
-  refine ⟨⟨hst, fun hl => ?_⟩, hh, fun q => by simp [St.rv, hrv], hmu, fun _ => Or.inl ⟨hlv, by omega⟩, hpow, new, hout, ?_, ?_, ?_⟩
+  refine ⟨⟨hst, fun hl => ?_⟩, hh, fun q => by simp [St.rv, hrv], hmu, fun _ => Or.inl ⟨hlv, by omega⟩, hpow, new, hout, ?_, ?_, ?_, ?_⟩
   · rw [hlv] at hl; have := hw.2 hl; rw [hlr]; omega
   · apply Chain_plain hmu
     intro o ho
@@ -266,6 +321,7 @@ theorem G_plain {s s' : St} (new : List Out) (hh : s'.height = s.height) (hrv : 
     rcases hnew o ho with ⟨_, _, _, _, rfl⟩ | ⟨_, _, _, rfl⟩ <;> simp [Just]
   · intro h r v hm
     rcases hnew _ hm with ⟨_, _, _, _, e⟩ | ⟨_, _, _, e⟩ <;> cases e
+  · exact D3C_plain hnew
 
 theorem decideProposal_cases (s : St) (h r : Nat) :
     decideProposal s h r = s ∨ ∃ pol v, decideProposal s h r = emit s (.proposal h r pol v) := by
@@ -352,7 +408,7 @@ theorem setRound_G (s : St) (r : Nat) : G s (setRound s r) := by
     unfold setRound; split <;> simp [die]
   obtain ⟨f1, f2, f3, f4, f5, f6, fp⟩ := hf
   have hmu : mu (setRound s r) = mu s := by simp [mu, f4, f5]
-  refine ⟨⟨by rw [f5]; exact hw.1, fun hl => ?_⟩, f1, setRound_rv s r, by omega, fun _ => Or.inl ⟨f2, by omega⟩, fp, [], by simp [f6], by simp [Chain, hmu], by simp, by simp⟩
+  refine ⟨⟨by rw [f5]; exact hw.1, fun hl => ?_⟩, f1, setRound_rv s r, by omega, fun _ => Or.inl ⟨f2, by omega⟩, fp, [], by simp [f6], by simp [Chain, hmu], by simp, by simp, by simp [D3C]⟩
   rw [f2] at hl; have := hw.2 hl; rw [f3, hmu]; exact this
 
 theorem newRoundCore_fields (s : St) (r : Nat) (vals : Model.ValSet.VS) :
@@ -375,7 +431,7 @@ theorem newRoundCore_G (s : St) (r : Nat) (vals : Model.ValSet.VS) (hg : s.round
     have := hw.1
     simp [sNewHeight] at hg
     omega
-  refine ⟨⟨by simp [f2, sNewRound], fun hl => ?_⟩, f3, f7, hmu, fun _ => Or.inl ⟨f4, by omega⟩, fp, [], by simp [f6], by simpa [Chain] using hmu, by simp, by simp⟩
+  refine ⟨⟨by simp [f2, sNewRound], fun hl => ?_⟩, f3, f7, hmu, fun _ => Or.inl ⟨f4, by omega⟩, fp, [], by simp [f6], by simpa [Chain] using hmu, by simp, by simp, by simp [D3C]⟩
   rw [f4] at hl; have := hw.2 hl; rw [f5]; omega
 
 theorem enterNewRound_G (s : St) (h r : Nat) : G s (enterNewRound s h r) := by
@@ -440,7 +496,7 @@ theorem precommit_leaf (s x : St) (v lv' lr' : Nat) (hst : s.step < 6)
   obtain ⟨x1, x2, x3, x4, x5, x6, x7⟩ := hx
   intro hw
   refine ⟨⟨by simp [sPrecommit], fun hl => ?_⟩, by simp [signAddVote, emit, x1], fun q => by simp [St.rv, signAddVote, emit, x2], ?_, ?_,
-    by simp [signAddVote, emit, x7], [.vote tPrecommit s.height s.round v], by simp [signAddVote, emit, x4, x1, x3], ?_, ?_, ?_⟩
+    by simp [signAddVote, emit, x7], [.vote tPrecommit s.height s.round v], by simp [signAddVote, emit, x4, x1, x3], ?_, ?_, ?_, by simp [D3C]⟩
   · simp only [signAddVote, emit, x5, x6, mu, sPrecommit] at hl ⊢
     rcases hlock hl with e | ⟨e1, e2⟩
     · omega
@@ -519,7 +575,7 @@ theorem G_commit {s s' : St} (r v : Nat) (hh : s'.height = s.height) (hrv : s'.r
   intro hw
   have hmu : mu s' = mu s := by simp [mu, hro, hst]
   refine ⟨⟨by rw [hst]; exact hw.1, fun hl => ?_⟩, hh, fun q => by simp [St.rv, hrv], by omega, fun _ => Or.inl ⟨hlv, by omega⟩,
-    hpow, _, hout, by simp [Chain, stamp, hmu], ?_, by simp⟩
+    hpow, _, hout, by simp [Chain, stamp, hmu], ?_, by simp, by simp [D3C]⟩
   · rw [hlv] at hl; have := hw.2 hl; rw [hlr, hmu]; exact this
   · intro o ho; simp at ho; subst ho; exact ⟨rfl, hv, hmaj⟩
 
@@ -1077,7 +1133,7 @@ theorem G_lockbase {a m : St} (hh : m.height = a.height) (hrv : m.rvs = a.rvs) (
   intro hw
   have hmu : mu m = mu a := by simp [mu, hro, hst]
   refine ⟨⟨by rw [hst]; exact hw.1, fun hl => ?_⟩, hh, fun q => by simp [St.rv, hrv], by omega, fun hl => ?_, hpow, [], by simp [hout],
-    by simp [Chain, hmu], by simp, by simp⟩
+    by simp [Chain, hmu], by simp, by simp, by simp [D3C]⟩
   · rcases hlock with ⟨e1, e2⟩ | ⟨e1, _⟩
     · rw [e1] at hl; have := hw.2 hl; rw [e2, hmu]; exact this
     · exact absurd e1 hl
@@ -1140,7 +1196,7 @@ theorem Spec_same {s x : St} (a : x.height = s.height) (b : x.round = s.round) (
     (tb : TblOK s → TblOK x) (mm : MajMono s x) : Spec s x :=
   ⟨x, a, b, c, d, e, f, p, tb, mm, G.refl x⟩
 
-theorem addPart_Spec (s : St) (h pv idx : Nat) (ho : s.out = []) : Spec s (addPart s h pv idx) := by
+theorem addPart_Spec (s : St) (h pv idx : Nat) (dec : Bool) (ho : s.out = []) : Spec s (addPart s h pv idx dec) := by
   unfold addPart
   split
   · exact Spec_same rfl rfl rfl rfl rfl ho rfl (fun h => h) (MajMono_rvs rfl)
@@ -1154,6 +1210,8 @@ theorem addPart_Spec (s : St) (h pv idx : Nat) (ho : s.out = []) : Spec s (addPa
   split
   · exact Spec_same rfl rfl rfl rfl rfl ho rfl (fun h => h) (MajMono_rvs rfl)
   simp only
+  split
+  · exact Spec_same rfl rfl rfl rfl rfl ho rfl (fun h => h) (MajMono_rvs rfl)
   split
   · exact Spec_same rfl rfl rfl rfl rfl ho rfl (fun h => h) (MajMono_rvs rfl)
   · obtain ⟨f1, f2, f3, f4, f5, f6, f7, f8⟩ := validOnComplete_fields
@@ -1209,10 +1267,10 @@ theorem stepCore_Spec (s : St) (i : In) (ht : WellTimed s i) : Spec s (stepCore 
     obtain ⟨p1, p2, p3, p4, p5, p6, p7, p8⟩ := setProposal_fields (learn { s with out := [], decided := false } v total) h r pol v total signer typ
     exact Spec_same (by rw [p1, l1]) (by rw [p2, l2]) (by rw [p3, l3]) (by rw [p4, l4]) (by rw [p5, l5]) (by rw [p6, l6]) (by rw [p7, l9])
       (TblOK_rvs (y := s) (by rw [p8, l7]) (by rw [p7, l9])) (MajMono_rvs (by rw [p8, l7]))
-  | part h r pv idx vOK cOK =>
+  | part h r pv idx vOK cOK dec =>
     simp only
     exact Spec_congr (s' := { s with out := [], decided := false, okv := aset s.okv pv (vOK, cOK) }) rfl rfl rfl rfl rfl rfl (fun h => h) (MajMono_rvs rfl)
-      (addPart_Spec _ h pv idx rfl)
+      (addPart_Spec _ h pv idx dec rfl)
   | vote t h r idx v tot src ok =>
     simp only
     obtain ⟨l1, l2, l3, l4, l5, l6, l7, _, l9⟩ := learn_fields { s with out := [], decided := false } v tot
@@ -1243,17 +1301,17 @@ theorem Spec_unfold {s s' : St} (hw : W s) (h : Spec s s') :
         (t = tPrecommit → v ≠ 0 → (s'.pvs r).maj23 = some v) ∧
         (t = tPrevote → s.lockedValue ≠ 0 → v = s.lockedValue ∨ Released s'.pvs s.lockedValue s.lockedRound r)) ∧
     (∀ h r v, Out.commit h r v ∈ s'.out → h = s.height ∧ v ≠ 0 ∧ (s'.pcs r).maj23 = some v) ∧
-    (∀ h r v, Out.vote tPrecommit h r v ∈ s'.out → v ≠ 0 → Held s'.pvs s' v r) := by
+    (∀ h r v, Out.vote tPrecommit h r v ∈ s'.out → v ≠ 0 → Held s'.pvs s' v r) ∧ D3C s'.pvs s'.out := by
   obtain ⟨a, h1, h2, h3, h4, h5, h6, h7, h8, h9, g⟩ := h
   have hwa : W a := by
     refine ⟨by rw [h3]; exact hw.1, fun hl => ?_⟩
     rw [h4] at hl; have := hw.2 hl; simp only [mu, h2, h3, h5] at this ⊢; exact this
-  obtain ⟨hw', hh, hrv, hmu, hlev, hpw, new, hout, hch, hj, hk⟩ := g hwa
+  obtain ⟨hw', hh, hrv, hmu, hlev, hpw, new, hout, hch, hj, hk, hd3⟩ := g hwa
   have hpv : s'.pvs = a.pvs := pvs_eq_of_rv hrv
   have hpc : s'.pcs = a.pcs := pcs_eq_of_rv hrv
   have hmua : mu a = mu s := by simp [mu, h2, h3]
   have hout' : s'.out = new := by rw [hout, h6]; simp
-  refine ⟨hw', by rw [hh, h1], by rw [hpw, h7], fun ht => TblOK_of_eq hrv hpw (h8 ht), MajMono.trans h9 (MajMono_of_rv hrv), by omega, ?_, by rw [hout', ← hmua]; exact hch, ?_, ?_, ?_⟩
+  refine ⟨hw', by rw [hh, h1], by rw [hpw, h7], fun ht => TblOK_of_eq hrv hpw (h8 ht), MajMono.trans h9 (MajMono_of_rv hrv), by omega, ?_, by rw [hout', ← hmua]; exact hch, ?_, ?_, ?_, by rw [hout', hpv]; exact hd3⟩
   · intro hl
     have := hlev (by rw [h4]; exact hl)
     rw [h4, h5] at this
@@ -1557,7 +1615,7 @@ theorem step_cases (s : St) (i : In) :
 
 theorem held_step (s : St) (i : In) (hist : List Out) (hw : W s) (ht : WellTimed s i) (hb : Below s hist)
     (hp : PrecommitsHeld s hist) : PrecommitsHeld (step s i) (hist ++ (step s i).out) := by
-  obtain ⟨hw', hh, _, _, hmm, hmu, hlev, _, hv, _, hk⟩ := Spec_unfold hw (stepCore_Spec s i ht)
+  obtain ⟨hw', hh, _, _, hmm, hmu, hlev, _, hv, _, hk, _⟩ := Spec_unfold hw (stepCore_Spec s i ht)
   have hr : s.round ≤ (stepCore s i).round := round_le_of_mu hmu hw'.1
   -- the claim for the state before the height switch
   have core : ∀ h r b, Out.vote tPrecommit h r b ∈ hist ++ (step s i).out → b ≠ 0 → h = s.height →
@@ -1622,6 +1680,24 @@ theorem node_prevote_respects_precommits (s0 : St) (is : List In) (i : In) (hw :
     obtain ⟨r'', x, h1, h2, h3, h4⟩ := hrel
     exact ⟨r'', x, h1, by omega, hmm r'' x h3, h4⟩
 
+/-- state form of `node_prevote_respects_precommits`: the invariant `PrecommitsHeld` is all that is needed of the past -/
+theorem prevote_respects_held (s : St) (i : In) (hw : W s) (ht : WellTimed s i) (log : List Out) (hheld : PrecommitsHeld s log)
+    (h r0 b r' v : Nat) (hpc : Out.vote tPrecommit h r0 b ∈ log) (hb0 : b ≠ 0)
+    (hpv : Out.vote tPrevote h r' v ∈ (stepCore s i).out) : v = b ∨ Released (stepCore s i).pvs b r0 r' := by
+  obtain ⟨_, _, _, _, hmm, _, _, _, hv, _, _⟩ := Spec_unfold hw (stepCore_Spec s i ht)
+  obtain ⟨hh, hst, _, hlk⟩ := hv _ _ _ _ hpv
+  have hrr : s.round ≤ r' := by
+    have : s.round * 16 ≤ mu s := by unfold mu; omega
+    simp [tPrevote] at hst; omega
+  rcases hheld h r0 b hpc hb0 hh with ⟨e1, e2⟩ | hrel
+  · have hl : s.lockedValue ≠ 0 := by rw [e1]; exact hb0
+    rcases hlk rfl hl with e | hrel2
+    · exact Or.inl (by rw [e, e1])
+    · right; rw [e1] at hrel2; exact Released_mono hrel2 e2 (Nat.le_refl _)
+  · right
+    obtain ⟨r'', x, h1, h2, h3, h4⟩ := hrel
+    exact ⟨r'', x, h1, by omega, hmm r'' x h3, h4⟩
+
 theorem run_Good : ∀ (is : List In) (s : St), Good s → Timed s is → Good (run s is)
   | [], _, hg, _ => hg
   | i :: rest, s, hg, ht => run_Good rest (step s i) (step_Good s i hg ht.1) ht.2
@@ -1655,7 +1731,7 @@ def exInit : St := initSt 0 [1, 1, 1, 1] 673 1 exVals
 def exRun : List In :=
   [ .timeout 1 0 sNewHeight,
     .proposal 1 0 (-1) 7 1 1 32,
-    .part 1 0 7 0 true true,
+    .part 1 0 7 0 true true true,
     .vote tPrevote 1 0 0 7 1 0 true, .vote tPrevote 1 0 1 7 1 1 true, .vote tPrevote 1 0 2 7 1 2 true,
     .vote tPrecommit 1 0 0 7 1 0 true, .vote tPrecommit 1 0 1 7 1 1 true, .vote tPrecommit 1 0 2 7 1 2 true ]
 
@@ -1676,7 +1752,7 @@ moves to round 1 and, on the propose timeout, prevotes the block it is locked on
 def exLockRun : List In :=
   [ .timeout 1 0 sNewHeight,
     .proposal 1 0 (-1) 7 1 1 32,
-    .part 1 0 7 0 true true,
+    .part 1 0 7 0 true true true,
     .vote tPrevote 1 0 0 7 1 0 true, .vote tPrevote 1 0 1 7 1 1 true, .vote tPrevote 1 0 2 7 1 2 true,
     .vote tPrecommit 1 0 1 0 0 1 true, .vote tPrecommit 1 0 2 0 0 2 true, .vote tPrecommit 1 0 3 0 0 3 true,
     .timeout 1 1 sPropose ]
@@ -1698,7 +1774,7 @@ def node_votes_once_untimed_statement : Prop := ∀ (s : St) (is : List In), W s
 `enterPrevote(height, round)` signs with `cs.Round`, not with `round`.  Round 0: prevote nil on the propose timeout, then the block
 arrives, then a propose timeout "of round 1" -/
 def exUntimed : List In :=
-  [ .timeout 1 0 sNewHeight, .timeout 1 0 sPropose, .proposal 1 0 (-1) 7 1 1 32, .part 1 0 7 0 true true, .timeout 1 1 sPropose ]
+  [ .timeout 1 0 sNewHeight, .timeout 1 0 sPropose, .proposal 1 0 (-1) 7 1 1 32, .part 1 0 7 0 true true true, .timeout 1 1 sPropose ]
 
 theorem votes_once_needs_timed : ¬ node_votes_once_untimed_statement := by
   intro h
